@@ -151,6 +151,10 @@ func (t *QCPendingTree) updateHighQC(inProposalId []byte) {
 	}
 	// 更改HighQC以及一系列的GenericQC、LockedQC和CommitQC
 	t.HighQC = node
+	// GenericQC、LockedQC、CommitQC必须是新HighQC的连续三代祖先, 祖先不在树中时置空, 不能保留旧HighQC的祖先
+	t.GenericQC = nil
+	t.LockedQC = nil
+	t.CommitQC = nil
 	t.Log.Debug("QCPendingTree::updateHighQC", "HighQC height", node.In.GetProposalView(), "HighQC", utils.F(node.In.GetProposalId()))
 	parent := t.DFSQueryNode(node.In.GetParentProposalId())
 	if parent == nil {
